@@ -37,8 +37,13 @@ def sqdist(a, b, ls):
     return np.sum(d * d)
 
 
+_DIAG_ZERO = False
+
+
 def dist(a, b, ls):
     """documented Euclidean distance with the library's documented guard (>= 1e-15)"""
+    if _DIAG_ZERO:
+        return Sym.const(0.0)
     return s_clamp_min(sym_sqrt(sqdist(a, b, ls)), Sym.const(1e-15))
 
 
@@ -106,7 +111,7 @@ def r_periodic(X1, X2, p, k):
         for i in range(d):
             li = ls[i] if len(ls) > 1 else ls[0]
             pi_ = per[i] if len(per) > 1 else per[0]
-            u = s_clamp_min(sym_sqrt(((a[i] - b[i]) / (pi_ / Sym.const(math.pi))) ** 2), Sym.const(1e-15))  # |pi (x-x')/p|
+            u = Sym.const(0.0) if _DIAG_ZERO else s_clamp_min(sym_sqrt(((a[i] - b[i]) / (pi_ / Sym.const(math.pi))) ** 2), Sym.const(1e-15))  # |pi (x-x')/p|
             s = sym_sin(u)
             tot = tot + s * s / li
         return sym_exp(tot * Sym.const(-2.0))
@@ -197,9 +202,12 @@ def r_arc(X1, X2, p, k):
     ang, rad = P_(p, "angle"), P_(p, "radius")
     bls = P_(p, "base_lengthscale")
     d = X1.shape[-1]
+    def pick(v, i):
+        return v[i] if len(v) > 1 else v[0]
+
     def emb(a):
-        s = [rad[i] * sym_sin(Sym.const(math.pi) * ang[i] * (a[i] / (ls[i] if len(ls) > 1 else ls[0]))) for i in range(d)]
-        c = [rad[i] * sym_cos(Sym.const(math.pi) * ang[i] * (a[i] / (ls[i] if len(ls) > 1 else ls[0]))) for i in range(d)]
+        s = [pick(rad, i) * sym_sin(Sym.const(math.pi) * pick(ang, i) * (a[i] / pick(ls, i))) for i in range(d)]
+        c = [pick(rad, i) * sym_cos(Sym.const(math.pi) * pick(ang, i) * (a[i] / pick(ls, i))) for i in range(d)]
         return np.array(s + c, dtype=object)
     return _pairs(X1, X2, lambda a, b: sym_exp(sqdist(emb(a), emb(b), bls) * Sym.const(-0.5)))
 
@@ -214,7 +222,7 @@ def build(spec, d, ard, bs):
     if spec == "rq":
         return K.RQKernel(ard_num_dims=ad, batch_shape=bsz)
     if spec == "periodic":
-        return K.PeriodicKernel(ard_num_dims=ad, batch_shape=bsz)
+        return K.PeriodicKernel(batch_shape=bsz, **({"ard_num_dims": ad} if ad else {}))
     if spec == "cosine":
         return K.CosineKernel(batch_shape=bsz)
     if spec == "linear":
@@ -288,7 +296,17 @@ def value(S, spec, n1, n2, d, ard, batch, mode, wrap):
             R = R * (osc[b] if bs else osc.reshape(-1)[0])
         tag = ("b%s." % list(b)) if bs else ""
         if mode == "diag":
-            S.prove_eq(out[b], np.diagonal(R), tag + "%s diag" % spec)
+            # diag=True with x2 is x1 takes the distance exactly 0 (the 1e-15 guard of the full-matrix path is not applied):
+            # reference = documented function at r = 0
+            global _DIAG_ZERO
+            _DIAG_ZERO = True
+            try:
+                Rd = np.array([REFS[spec](X1[b][i:i + 1], X1[b][i:i + 1], pb, base)[0, 0] for i in range(X1[b].shape[0])], dtype=object)
+            finally:
+                _DIAG_ZERO = False
+            if wrap == "scale":
+                Rd = Rd * (osc[b] if bs else osc.reshape(-1)[0])
+            S.prove_eq(out[b], Rd, tag + "%s diag" % spec)
         else:
             S.prove_eq(out[b], R, tag + "%s K(x1,x2)" % spec)
 
